@@ -166,7 +166,7 @@ def finish(prop, tier, seed, results, wall, write_evidence=True, verbose=False, 
         elif undecided:
             code = 2
     bounded = list(bounded_by.values())
-    if n_ob == 0 and code == 0:
+    if n_ob + n_bounded_ob[0] == 0 and code == 0:
         print(f"CHECKER-ERROR property={prop}: zero obligations generated")
         code = 3
     print(f"[{prop}] tier={tier} units={len(results)} obligations={n_ob} discharged={n_proved} bounded-obligations={n_bounded_ob[0]} vcs={n_vcs} "
